@@ -33,6 +33,14 @@ Structure (see notes/HOWTO.md):
      untouched, stored value = plain clip, hit flag exact, the vector not
      addressed and another owner of the same class untouched, the caller's
      array not kept, reads through the owner give the stored values).
+  6. by-key assignments and reads with an UNKNOWN key drawn from the object's own
+     vocabulary (every dunder-free word of dir(Vector) / dir(transform): "_values",
+     "_mins", "values", "reset", "clone", "nval", ...) next to ordinary unknown keys,
+     on bare vectors, on a transform, on trans.params / trans.constants
+     (vocab_sweep): crash-proof snapshot (an unreadable state is a violation), a
+     rejected assignment / a read leaves all untouched, frame, invariants, an
+     assignment naming no component changes no value / flag, methods still
+     callable, clone / round trip / reset still work.
 """
 import itertools
 import math
@@ -1161,6 +1169,198 @@ def owner_sweep(ctx, fail):
                                                     "via": "get_transform"})
 
 
+# ----------------------------------------------------------------------------
+# UNKNOWN keys drawn from the object's own vocabulary: v[key] = x / v[key] / trans[key] = x /
+# trans.params[key] = x ... where key is not a name of the vector but an attribute / property / method
+# name of Vector or of the transform ("_values", "_mins", "values", "reset", "clone", "nval", ...: every
+# dunder-free word of dir(obj)), next to ordinary unknown keys.  The property's clauses on the state
+# read back (crash-proof: a state that cannot be read any more is itself a violation): a rejected
+# assignment and a read leave everything untouched; names, bounds, defaults, flags never change;
+# values within bounds, NaN only when allowed; an assignment that names no component changes no
+# value and does not touch the hit flag; the methods are still callable and clone / round trip /
+# reset still work.
+
+ORDINARY_UNKNOWN = ["zz", "other", "", "A", "a ", 0, None]
+VOCAB_METHODS = {}
+
+
+def vocabulary(obj):
+    return [d for d in dir(obj) if not (d.startswith("__") and d.endswith("__"))]
+
+
+def vocab_target(obj, tg):
+    return obj if tg == "self" else getattr(obj, tg)
+
+
+def vocab_make(Vector, tr, case):
+    if case["kind"] == "vector":
+        obj = construct(Vector, case["ctor"])[0]
+    else:
+        obj = make_owner(tr, case["spec"])
+    for tg, key, val in case["prelude"]:
+        vocab_target(obj, tg)[key] = val
+    return obj
+
+
+def vocab_step(ctx, fail, Vector, tr, case, obj=None):
+    """one by-key assignment / read with a key that is not a name; -> False when the object is not
+    to be used any further"""
+    kind = case["kind"]
+    tg, mode, key, val = case["step"]
+    rp = {"vocab": case}
+    vecs = (lambda o: {"vector": o}) if kind == "vector" else (lambda o: {r: getattr(o, r) for r in ROLES})
+    observe = lambda o: {r: snap(v) for r, v in vecs(o).items()}
+    try:
+        if obj is None:
+            obj = vocab_make(Vector, tr, case)
+        before = observe(obj)
+    except Exception:
+        # no valid starting point (only after an earlier, reported, step damaged state that objects share)
+        ctx.count(("vocab", kind, "no-start"))
+        return False
+    if any(key in st["names"] for st in before.values()):
+        return True         # (a name of a vector: not this class)
+    ck = (kind, type(obj).__name__)
+    if ck not in VOCAB_METHODS:     # the methods of a pristine object of the class
+        hs = dict(vecs(obj), self=obj)
+        VOCAB_METHODS[ck] = [(h, w) for h, o in hs.items() for w in vocabulary(o)
+                             if callable(getattr(o, w, None))]
+    alive = VOCAB_METHODS[ck] if mode == "set" else []
+    exc = ""
+    try:
+        if mode == "set":
+            vocab_target(obj, tg)[key] = val
+        else:
+            vocab_target(obj, tg)[key]
+    except Exception as e:
+        exc = f"{type(e).__name__}: {e}"
+    if kind == "vector":
+        fn = "setitem" if mode == "set" else "getitem"
+    elif tg == "self":
+        meth = "__setitem__" if mode == "set" else "__getitem__"
+        fn = f"{owner_defining(obj, meth)}.{meth}"
+    else:
+        fn = "transform-vector." + ("setitem" if mode == "set" else "getitem")
+    rp["outcome"] = exc or "accepted"
+    rp["before"] = before
+    ctx.count(("vocab", kind, tg, mode, "raised" if exc else "accepted"))
+    try:
+        after = observe(obj)
+    except Exception as e:
+        fail(f"C12/{fn}/state-unreadable", rp,
+             f"after [{key!r}] {'= ' + repr(val) if mode == 'set' else '(read)'} ({exc or 'accepted'}) the state of "
+             f"the vector cannot be read any more: {type(e).__name__}: {e}")
+        return False
+    rp["after"] = after
+    ok = True
+    for r in before:
+        pre = "" if kind == "vector" else f"{r}-"
+        rf = (lambda key_, r_, what, pre=pre: fail(key_.rsplit("/", 1)[0] + "/" + pre + key_.rsplit("/", 1)[1], r_, what))
+        H = Hist(ctx, Vector, rf)
+        b, a = before[r], after[r]
+        if state_valid(b):
+            H.invariants(fn, a, rp)
+        H.frame(fn, b, a, rp)
+        d = diff_fields(b, a)
+        if d:
+            ok = False
+            if exc:
+                rf(f"C12/{fn}/rejected-but-state-changed", rp, f"[{key!r}] = {val!r} raised ({exc}) but {d} changed")
+            elif mode == "get":
+                rf(f"C12/{fn}/source-changed", rp, f"reading [{key!r}] changed {d}")
+            elif "values" in d or "hit" in d:
+                rf(f"C12/{fn}/unknown-key-changed-state", rp,
+                   f"[{key!r}] = {val!r} names no component but changed {d}: {b} -> {a}")
+    # the methods are still there
+    holders = dict(vecs(obj), self=obj)
+    for h, w in alive:
+        try:
+            still = callable(getattr(holders[h], w))
+        except Exception:
+            still = False
+        if not still:
+            ok = False
+            fail(f"C12/{fn}/method-broken", rp,
+                 f"after [{key!r}] {'= ' + repr(val) if mode == 'set' else '(read)'} ({exc or 'accepted'}) "
+                 f"{'the object' if h == 'self' else h}.{w} is not callable any more")
+    if ok and mode == "set" and not exc:
+        # accepted although it names nothing: copies and reset still work on what is left
+        for r, v in vecs(obj).items():
+            pre = "" if kind == "vector" else f"{r}-"
+            rf = (lambda key_, r_, what, pre=pre: fail(key_.rsplit("/", 1)[0] + "/" + pre + key_.rsplit("/", 1)[1], r_, what))
+            H = Hist(ctx, Vector, rf)
+            for what in ("dict", "clone"):
+                H.look(v, what, after[r], rp)
+            try:
+                v.reset()
+                if not same_list(snap(v)["values"], after[r]["defaults"]):
+                    rf("C12/reset/stored-value-wrong", rp, f"reset after [{key!r}] = {val!r} does not restore the defaults")
+            except Exception as e:
+                rf("C12/reset/raises", rp, f"reset after [{key!r}] = {val!r} raised {type(e).__name__}: {e}")
+        return False
+    return ok
+
+
+def vocab_sweep(ctx, fail, Vector):
+    from hydrodiy.stat import transform as tr
+    rng = ctx.rng
+    cases = []
+    # --- bare vectors
+    vwords = vocabulary(Vector([]))
+    cfgs = [(1, ["finite"], (True, True), False), (2, ["finite", "lower"], (True, True), True),
+            (1, ["free"], (True, False), False), (2, ["upper", "finite"], (False, False), True),
+            (0, [], (True, False), False)]
+    if ctx.thorough:
+        cfgs += [(3, None, (True, True), False), (4, None, (True, False), True), (1, ["point"], (True, True), True)]
+    for n, kinds, flags, an in cfgs:
+        ctor = gen_ctor(rng, n=n, kinds=kinds, flags=flags, an=an, clean=True)
+        preludes = [[]]
+        if n:
+            cv = class_values(ctor["mins"][0], ctor["maxs"][0])
+            x = cv.get("above", cv.get("below", cv["onlo"]))
+            preludes.append([["self", ctor["names"][0], x]])      # a clipped assignment first (flag raised)
+        for prelude in preludes:
+            for key in vwords + ORDINARY_UNKNOWN:
+                steps = [["self", "get", key, None]] + [["self", "set", key, x] for x in
+                                                         ctx.scale([1.0, NAN], [1.0, NAN, 0.25, -INF, 1e300])]
+                for st in steps:
+                    cases.append({"kind": "vector", "ctor": ctor, "prelude": prelude, "step": st})
+    # --- owners
+    specs = [{"transform": c} for c in tr.__all__]
+    specs += [generic_spec(rng, 1, 1, (True, True), False, (True, True), True, ["finite"], ["lower"]),
+              generic_spec(rng, 2, 0, (True, False), True, (True, False), False, ["finite", "free"], [])]
+    for spec in specs:
+        try:
+            t = make_owner(tr, spec)
+        except Exception:
+            continue
+        twords = vocabulary(t)
+        prelude = []
+        for r in ROLES:
+            s = snap(getattr(t, r))
+            if s["names"] and math.isfinite(s["mins"][0]):
+                prelude = [[r, s["names"][0], s["mins"][0] - 1.0]]
+                break
+        for tg in ("self",) + ROLES:
+            keys = (twords if tg == "self" else []) + vwords + ORDINARY_UNKNOWN
+            for key in keys:
+                for st in [[tg, "get", key, None]] + [[tg, "set", key, x] for x in ctx.scale([1.0], [1.0, NAN, -INF])]:
+                    cases.append({"kind": "owner", "spec": spec, "prelude": prelude, "step": st})
+    # every case on a fresh object; and, per object description, all its cases as one history on one object
+    shared = {}
+    for case in cases:
+        cm.mark({"vocab": case})
+        vocab_step(ctx, fail, Vector, tr, case)
+        ident = repr((case["kind"], case.get("ctor"), case.get("spec"), case["prelude"]))
+        if (ctx.thorough or case["step"][1] == "set") and shared.get(ident, True) is not False:
+            if ident not in shared:
+                shared[ident] = vocab_make(Vector, tr, case)
+            hist_case = dict(case, note="step applied to an object that went through the earlier steps of the "
+                                        "same description without any change of state")
+            if not vocab_step(ctx, fail, Vector, tr, hist_case, obj=shared[ident]):
+                shared[ident] = False
+
+
 def transform_search(ctx, fail):
     from hydrodiy.stat import transform as tr
     rng = ctx.rng
@@ -1249,6 +1449,8 @@ def run(ctx):
                 "on params / constants; reset; unknown name; wrong length; get_transform keywords} x {inside, on, "
                 "1e-6 / 0.5 / 1 / 1e6 outside, +-1e300, +-inf, +-0, NaN} x {float, int, float64, float32; list, "
                 "tuple, array, strided view}, each on a fresh owner and in a shuffled history on one owner; "
+                "unknown keys (every dunder-free word of dir(object), '', 'zz', 0, None) x {read, assign 1.0 / NaN} "
+                "by key on vectors, transforms and their params / constants; "
                 "non-trivial = distinct (generator, nval, check_hitbounds, accept_nan, length class) signature or "
                 "(class, call, raised) or (owner, class, vector, route, outcome)")
     ctx.trusted = cm.STD_TRUST + [
@@ -1399,11 +1601,18 @@ def run(ctx):
         rp = ctx.replay.get("replay", ctx.replay)
         if isinstance(rp, dict) and "transform" in rp:
             transform_replay(ctx, fail, rp)
+        if isinstance(rp, dict) and "vocab" in rp:
+            from hydrodiy.stat import transform as _tr
+            vocab_step(ctx, fail, Vector, _tr, rp["vocab"])
     owner_sweep(ctx, fail)
     tphase["owner_sweep"] = round(time.time() - t0, 1)
     t0 = time.time()
     transform_search(ctx, fail)
     tphase["transforms"] = round(time.time() - t0, 1)
+    t0 = time.time()
+    # (last: with a defective by-key path these steps can damage state that objects of a class share)
+    vocab_sweep(ctx, fail, Vector)
+    tphase["vocab_sweep"] = round(time.time() - t0, 1)
     ctx.notes["phase_seconds"] = tphase
 
     cm.settle(ctx, proved, bad, failed, orc_fail, lambda i: replays[i],
